@@ -34,7 +34,7 @@ def fixed_cases(tier: str):
 
 def run_case(case: Dict[str, Any], ctx: Any) -> core.CaseResult:
     res = core.CaseResult()
-    per_rank = {tr["distributedInfo"]["rank"]: c04.activities(tr) for tr in case["files"].values()}
+    per_rank = c04.kept_activities(case)
     exp = {}
     for r, acts in per_rank.items():
         typed = [(e.ts, e.end, iv.kernel_type(e.name)) for e in acts]
